@@ -634,6 +634,37 @@ pub fn o_cap(a: &Analysis) -> Vec<Violation> {
             //   #(sends returned Ok <= t) - #(values obtained by receive ops invoked <= t) <= n
             let mut ok: Vec<&SendEv> = a.sends.iter().filter(|s| s.status == SendStatus::Ok).collect();
             ok.sort_by_key(|s| s.ret);
+            // a plain try_send is refused only when the buffer is full: if even the largest number of values that can
+            // have been in the buffer at any moment of the call is below the capacity, the refusal was wrong.
+            // largest possible length during [inv, ret] = sends that began by ret and succeeded (at any time)
+            //                                            - values obtained by receive operations completed by inv
+            if n >= 1 {
+                for s in a.sends.iter() {
+                    let refused = s.status == SendStatus::Failed && s.err.is_none() && matches!(s.kind, "try_send" | "try_send_option");
+                    if !refused || s.ret == 0 {
+                        continue;
+                    }
+                    let may_be_in = a
+                        .sends
+                        .iter()
+                        .filter(|o| o.id != s.id && o.inv <= s.ret && matches!(o.status, SendStatus::Ok | SendStatus::Cancelled | SendStatus::Incomplete))
+                        .count() as i64;
+                    let surely_out = a.recvs.iter().filter(|r| r.ret != 0 && r.ret <= s.inv).count() as i64;
+                    if may_be_in - surely_out < n as i64 {
+                        out.push(v(
+                            format!("cap/refused-with-room@{}", s.kind),
+                            format!(
+                                "{} of id {} was refused although at most {} values can have been in the buffer of capacity {} during the call",
+                                s.kind,
+                                s.id,
+                                (may_be_in - surely_out).max(0),
+                                n
+                            ),
+                        ));
+                        break;
+                    }
+                }
+            }
             let mut taken: Vec<u64> = a.recvs.iter().map(|r| r.inv).collect();
             // a cancelled pending receive may have consumed one value (documented caveat)
             for c in a.cancelled_recvs.iter() {
